@@ -159,7 +159,7 @@ def g_cases(rep, lim, cases, d):
     inp, out = os.path.join(d, "cases.ndjson"), os.path.join(d, "out.ndjson")
     nv.write_ndjson(inp, [harness_case(c) for c in cases])
     nv.harness("nv-html", ["html-cases", "--cases", inp, "--out", out])
-    outs = nv.read_ndjson_text(open(out).read())
+    outs = nv.read_ndjson_text(open(out, encoding="utf-8").read())
     if len(outs) != len(cases):
         raise nv.ToolError("harness returned %d results for %d cases" % (len(outs), len(cases)))
     drift = []
@@ -206,7 +206,7 @@ def e2e(rep, lim, ecases, d, tier):
         e["_id"] = i
     nv.write_ndjson(inp, [{"id": e["_id"], "steps": e["steps"]} for e in ecases])
     nv.harness("nv-html", ["html-e2e", "--cases", inp, "--out", out, "--trace", trace])
-    outs = nv.read_ndjson_text(open(out).read())
+    outs = nv.read_ndjson_text(open(out, encoding="utf-8").read())
     pending = []      # unsafe diagnostics, classified after J
     covered = {}      # (outcome, kind) -> renderings that carry user metacharacters
     stage_drift = []
@@ -436,7 +436,7 @@ def replay(path, seed):
             inp, out = os.path.join(d, "c.ndjson"), os.path.join(d, "o.ndjson")
             nv.write_ndjson(inp, [v["case"]])
             nv.harness("nv-html", ["html-cases", "--cases", inp, "--out", out])
-            o = nv.read_ndjson_text(open(out).read())[0]
+            o = nv.read_ndjson_text(open(out, encoding="utf-8").read())[0]
             txt = v.get("text", "")
             ok = "out" in o and safe(o["out"], txt)
             print(json.dumps({"case": v["case"], "expected": v.get("expected"), "observed": o, "safe": ok})[:2000])
@@ -445,7 +445,7 @@ def replay(path, seed):
             inp, out, tr = os.path.join(d, "e.ndjson"), os.path.join(d, "eo.ndjson"), os.path.join(d, "et.ndjson")
             nv.write_ndjson(inp, [{"id": 0, "steps": v["steps"]}])
             nv.harness("nv-html", ["html-e2e", "--cases", inp, "--out", out, "--trace", tr])
-            o = nv.read_ndjson_text(open(out).read())[0]
+            o = nv.read_ndjson_text(open(out, encoding="utf-8").read())[0]
             bad = []
             for s in o["steps"]:
                 rs = [(s["diag"]["html"], s["diag"]["plain"])] if "diag" in s else []
